@@ -20,7 +20,6 @@ use bugstalker::debugger::address::{Address, RelocatedAddress};
 use bugstalker::debugger::variable::dqe::{Dqe, Selector};
 use bugstalker::debugger::{Debugger, DebuggerBuilder};
 use nix::unistd::Pid;
-use object::{Object, ObjectSegment};
 use serde_json::{json, Value};
 use std::collections::BTreeMap;
 use std::io::Write;
@@ -45,13 +44,29 @@ fn min_load_vaddr(path: &str, cache: &mut BTreeMap<String, Option<(u64, bool)>>)
         return *v;
     }
     let v = (|| {
-        let data = std::fs::read(path).ok()?;
-        if data.len() < 4 || &data[..4] != b"\x7fELF" {
+        // program headers only (the files can be large)
+        use std::io::Read;
+        let mut f = std::fs::File::open(path).ok()?;
+        let mut h = [0u8; 64];
+        f.read_exact(&mut h).ok()?;
+        if &h[..4] != b"\x7fELF" || h[4] != 2 {
             return None;
         }
-        let f = object::File::parse(&*data).ok()?;
-        let lo = f.segments().map(|s| s.address()).min()?;
-        Some((lo & !0xfff, f.kind() == object::ObjectKind::Dynamic))
+        let e_type = u16::from_le_bytes([h[0x10], h[0x11]]);
+        let phoff = u64::from_le_bytes(h[0x20..0x28].try_into().unwrap());
+        let phentsize = u16::from_le_bytes([h[0x36], h[0x37]]) as usize;
+        let phnum = u16::from_le_bytes([h[0x38], h[0x39]]) as usize;
+        let mut ph = vec![0u8; phentsize * phnum];
+        std::os::unix::fs::FileExt::read_exact_at(&f, &mut ph, phoff).ok()?;
+        let mut lo: Option<u64> = None;
+        for i in 0..phnum {
+            let e = &ph[i * phentsize..(i + 1) * phentsize];
+            if u32::from_le_bytes(e[0..4].try_into().unwrap()) == 1 {
+                let va = u64::from_le_bytes(e[16..24].try_into().unwrap());
+                lo = Some(lo.map_or(va, |x: u64| x.min(va)));
+            }
+        }
+        Some((lo? & !0xfff, e_type == 3))
     })();
     cache.insert(path.to_string(), v);
     v
@@ -107,14 +122,14 @@ fn canon(p: &std::path::Path) -> String {
     std::fs::canonicalize(p).map(|c| c.to_string_lossy().to_string()).unwrap_or(p.to_string_lossy().to_string())
 }
 
-fn observe(cx: &mut Ctx, stopped: bool) -> Value {
+fn observe(cx: &mut Ctx, stopped: bool, started: bool) -> Value {
     let mut o = serde_json::Map::new();
     let st = probe::process_state(cx.pid);
     let alive = st.as_deref().map(|s| s != "Z").unwrap_or(false);
     o.insert("alive".into(), json!(alive));
     o.insert("proc_state".into(), json!(st));
     o.insert("tasks".into(), probe::task_states_json(cx.pid));
-    if alive {
+    if alive && started {
         o.insert("objects".into(), mapped_objects(cx.pid, &mut cx.elfc));
     }
     let Some(d) = cx.dbg.as_ref() else { return Value::Object(o) };
@@ -245,6 +260,7 @@ fn main() {
     if argv.len() < 3 {
         vharness::tool_error("usage: c18 <scenario.json> <out.ndjson>");
     }
+    let t0 = std::time::Instant::now();
     let sc = read_json(&argv[1]);
     let mut out = NdjsonOut::create(&argv[2]);
     let exe = sc["exe"].as_str().unwrap_or_else(|| vharness::tool_error("scenario.exe")).to_string();
@@ -325,8 +341,8 @@ fn main() {
         dbg::launch(&exe, &args)
     };
     let mut cx = Ctx { dbg: Some(d), rec, out: outp, pid: pid.as_raw(), elfc: BTreeMap::new() };
-    out.emit(&json!({"ev": "meta", "pid": cx.pid, "mode": if attach { "attach" } else { "launch" }}));
-    let o0 = observe(&mut cx, attach);
+    out.emit(&json!({"ev": "meta", "pid": cx.pid, "mode": if attach { "attach" } else { "launch" }, "t_ms": t0.elapsed().as_millis() as u64}));
+    let o0 = observe(&mut cx, attach, attach);
     out.emit(&json!({"ev": "obs", "k": -1, "cmd": {"op": "init"}, "res": {"ok": true}, "hooks": cx.rec.take(), "after": o0}));
 
     let steps = sc["steps"].as_array().cloned().unwrap_or_default();
@@ -369,8 +385,8 @@ fn main() {
             std::thread::sleep(std::time::Duration::from_millis(300));
         }
         let stopped = started && res["ok"] == json!(true) && res["ret"]["kind"] != json!("exit");
-        let after = if panicked { json!({"status": "panicked", "proc_state": probe::process_state(cx.pid)}) } else { observe(&mut cx, stopped || (op == "req" && started)) };
-        out.emit(&json!({"ev": "obs", "k": k, "cmd": c, "res": res, "hooks": hooks, "after": after}));
+        let after = if panicked { json!({"status": "panicked", "proc_state": probe::process_state(cx.pid)}) } else { observe(&mut cx, stopped || (op == "req" && started), started || op != "req") };
+        out.emit(&json!({"ev": "obs", "k": k, "cmd": c, "res": res, "hooks": hooks, "after": after, "t_ms": t0.elapsed().as_millis() as u64}));
         if op != "req" && res["ok"] != json!(true) {
             break; // the session is lost (error or panic while running)
         }
